@@ -302,6 +302,28 @@ func runC13(c *ctx) {
 			c.Violation("C13/decoder/mixed-length-fields", fmt.Sprintf("a list of items with payload sizes %v does not decode back (built: %s, %d bytes, ok=%v)", sizes, o, len(b), ok), c13Case{"mixed", "B+A+U2", sizes[0]})
 		}
 	}
+	// an item at the limit next to other items in a list: the limit binds each length field, not the text of the message
+	// around it (which the 4-byte message length covers)
+	for _, k := range []ref.Kind{ref.A, ref.U1, ref.I8} {
+		big := c13Build(k, ref.MaxBytes/k.Width())
+		var b []byte
+		o := real.Try(func() {
+			b = ast.NewHSMSDataMessage("", 1, 1, 0, "H<->E", ast.NewListNode(big, c13Build(ref.B, 1), big, c13Build(ref.L, 0)), 7, []byte{0, 0, 0, 0}).ToBytes()
+		})
+		c.NoteBulk(1, 1)
+		c.Class("items-at-the-limit-inside-a-list")
+		dec, ok, _ := hsmsParse(b)
+		good := !o.Panicked && ok && len(b) > 2*ref.MaxBytes/k.Width()*k.Width()
+		if good {
+			good = bytes.Equal(dec.ToBytes(), b)
+		}
+		if !good {
+			c.Violation("C13/decoder/items-at-the-limit-inside-a-list", fmt.Sprintf("<L big%s[%d] <B[1]> big <L[0]>> does not decode back (built: %s, %d bytes, ok=%v)", k, ref.MaxBytes/k.Width(), o, len(b), ok), c13Case{"biglist", k.String(), ref.MaxBytes / k.Width()})
+		}
+		dec, b = nil, nil
+		runtime.GC()
+		debug.FreeOSMemory()
+	}
 	// a list of 16,777,216 elements is beyond the limit whatever its last element is (item, variable, ellipsis)
 	{
 		args := make([]interface{}, ref.MaxBytes+1)
@@ -348,7 +370,7 @@ func runC13(c *ctx) {
 			c.Violation("C13/fill/encoding", fmt.Sprintf("filled ASCII of %d characters encodes to %d bytes", n, len(filled.ToBytes())), c13Case{"fill", "A", n})
 		}
 	}
-	c.Required = []string{"mixed-length-fields", "list-limit-with-variable-last", "earlier-encoding-re-read", "ascii-fill-at-the-limit", "item/beyond-limit", "item/lenbytes=3/L", "item/lenbytes=3/A", "item/lenbytes=3/F8", "item/lenbytes=2/U2", "header-sweep-points"}
+	c.Required = []string{"mixed-length-fields", "items-at-the-limit-inside-a-list", "list-limit-with-variable-last", "earlier-encoding-re-read", "ascii-fill-at-the-limit", "item/beyond-limit", "item/lenbytes=3/L", "item/lenbytes=3/A", "item/lenbytes=3/F8", "item/lenbytes=2/U2", "header-sweep-points"}
 }
 
 func replayC13(c *ctx, raw json.RawMessage) {
